@@ -1,15 +1,15 @@
 #!/bin/sh
-# builds the bld model runner from the freshly extracted model (fam/bld/coq/model.ml, model.mli)
+# builds the bld model runner from the freshly extracted model (fam/bld/coq/model.ml, model.mli); the binary lives in _build/ (git-ignored)
 set -e
 cd "$(dirname "$0")"
 mkdir -p _build
 cp ../coq/model.ml ../coq/model.mli main.ml _build/
 cd _build
-ocamlfind ocamlopt -O3 -w -a -o ../runner.bin model.mli model.ml main.ml 2>/dev/null || ocamlfind ocamlopt -w -a -o ../runner.bin model.mli model.ml main.ml
+ocamlfind ocamlopt -O3 -w -a -o runner.bin model.mli model.ml main.ml 2>/dev/null || ocamlfind ocamlopt -w -a -o runner.bin model.mli model.ml main.ml
 cd ..
 cat > runner <<'EOS'
 #!/bin/sh
 ulimit -s unlimited 2>/dev/null || ulimit -s "$(ulimit -Hs)" 2>/dev/null || true
-exec "$(dirname "$0")/runner.bin" "$@"
+exec "$(dirname "$0")/_build/runner.bin" "$@"
 EOS
 chmod +x runner
